@@ -1,6 +1,7 @@
 CONSTANTS
   MaxVer = 4
   NQ = 3
+  NCheck = 0
   QKinds <- KAll
   Orders <- OAll
   Crashes = FALSE
